@@ -7,7 +7,7 @@ renames, elided or explicit lifetimes, `more` / `oneway`. Every method is called
 and chain-extension forms with random literal arguments on a capturing connection; each call prints
 `proxy <declaration> A <args> FORM <form> => <frame hex>`; plain calls also print how a set of reply
 frames is mapped (`proxyreply ...`)."""
-import sys, random
+import os, sys, random
 
 def hexs(s): return s.encode().hex() or "-"
 
@@ -43,6 +43,27 @@ def sexpr(v):
 def rstr(rng):
     return "".join(rng.choice("abcxyzQR7 _-") for _ in range(rng.randint(0, 8)))
 
+OPTION_PATHS = ["Option", "Option", "std::option::Option", "core::option::Option", "::std::option::Option"]
+
+_RUST_KW = set("as break const continue crate else enum extern false fn for if impl in let loop match mod move mut pub ref return self Self static struct super trait true type unsafe use where while async await dyn abstract become box do final macro override priv typeof unsized virtual yield try gen".split())
+
+def harvested_names():
+    """identifiers the macro's own source binds (`let x`, closure parameters): a trait argument of the same name must
+    still reach the wire under its own name and with its own value, whatever locals the expansion uses"""
+    import glob, re
+    names = set()
+    for f in glob.glob("/repo/zlink-macros/src/proxy/*.rs") + ["/repo/zlink-macros/src/proxy.rs"]:
+        try:
+            src = open(f).read()
+        except OSError:
+            continue
+        for m in re.finditer(r"\blet\s+(?:mut\s+)?([a-z][a-z0-9_]*)\b", src): names.add(m.group(1))
+        for m in re.finditer(r"\|\s*([a-z][a-z0-9_]*)\s*\|", src): names.add(m.group(1))
+    names |= {"method", "parameters", "params", "call", "reply", "connection", "conn", "result", "error", "out", "value", "this", "buf", "stream", "chain"}
+    return sorted(n for n in names if n not in _RUST_KW and "__" not in n and not n.endswith("_"))
+
+HARVESTED = harvested_names()
+
 def gen_param(rng, explicit_lt):
     kind = rng.choice(["u32", "i64", "bool", "str", "string", "opt_u32", "opt_str", "slice", "struct", "generic"])
     lt = "'a " if explicit_lt else ""
@@ -57,11 +78,13 @@ def gen_param(rng, explicit_lt):
     if kind == "string":
         v = rstr(rng); return ("String", f'String::from("{v}")', v, False)
     if kind == "opt_u32":
-        if rng.random() < 0.5: return ("Option<u32>", "None", None, True)
-        v = rng.randint(0, 99999); return ("Option<u32>", f"Some({v}u32)", v, True)
+        op = rng.choice(OPTION_PATHS)
+        if rng.random() < 0.5: return (f"{op}<u32>", "None", None, True)
+        v = rng.randint(0, 99999); return (f"{op}<u32>", f"Some({v}u32)", v, True)
     if kind == "opt_str":
-        if rng.random() < 0.5: return (f"Option<&{lt}str>", "None", None, True)
-        v = rstr(rng); return (f"Option<&{lt}str>", f'Some("{v}")', v, True)
+        op = rng.choice(OPTION_PATHS)
+        if rng.random() < 0.5: return (f"{op}<&{lt}str>", "None", None, True)
+        v = rstr(rng); return (f"{op}<&{lt}str>", f'Some("{v}")', v, True)
     if kind == "slice":
         v = [rng.randint(0, 999) for _ in range(rng.randint(0, 3))]
         return (f"&{lt}[u32]", "&[" + ",".join(f"{x}u32" for x in v) + "]", v, False)
@@ -93,7 +116,7 @@ def gen_trait(rng, ti):
         pn = set()
         ngen = 0
         for _ in range(rng.randint(0, 4)):
-            name = rng.choice(PNAMES)
+            name = rng.choice(HARVESTED) if (HARVESTED and rng.random() < 0.3) else rng.choice(PNAMES)
             if name in pn: continue
             pn.add(name)
             ty, lit, val, optional = gen_param(rng, explicit_lt)
@@ -211,12 +234,33 @@ def emit_trait(t):
 
 def main():
     seed = int(sys.argv[1]); n = int(sys.argv[2]); path = sys.argv[3]
+    # traits whose expansion does not compile are left out on a second pass (they are failing inputs of their own:
+    # "for every trait the macro accepts" - these traits are acceptable, it is the generated code that is refused)
+    skip = set(int(x) for x in sys.argv[4].split(",")) if len(sys.argv) > 4 and sys.argv[4] else set()
     rng = random.Random(seed * 7919 + 13)
     traits = [gen_trait(rng, i) for i in range(n)]
     src = ["// GENERATED by /verif/corpus/gen_proxy.py - do not edit.", "#![allow(unused, non_snake_case, clippy::all)]", "use crate::support::*;", "use zlink_core::Connection;", ""]
-    src += [emit_trait(t) for t in traits]
-    src.append("pub fn run_all(out: &mut Vec<String>) {\n" + "\n".join(f"    t{t['idx']}::run(out);" for t in traits) + "\n}")
-    open(path, "w").write("\n".join(src) + "\n")
+    ranges = []
+    line = len(src) + 1
+    for t in traits:
+        if t["idx"] in skip:
+            continue
+        text = emit_trait(t)
+        k = text.count("\n") + 1
+        decl = "; ".join(decl_str(t, m) for m in t["methods"])
+        ranges.append({"idx": t["idx"], "start": line, "end": line + k - 1, "decl": decl})
+        src.append(text)
+        line += k
+    src.append("pub fn run_all(out: &mut Vec<String>) {\n" + "\n".join(f"    t{t['idx']}::run(out);" for t in traits if t["idx"] not in skip) + "\n}")
+    text = "\n".join(src) + "\n"
+    try:
+        same = open(path).read() == text
+    except OSError:
+        same = False
+    if not same:
+        open(path, "w").write(text)
+    import json
+    open(os.path.join(os.path.dirname(path), "gen_proxy.lines.json"), "w").write(json.dumps(ranges))
 
 if __name__ == "__main__":
     main()
